@@ -12,7 +12,7 @@ EXPLANATION = ("R20.1 framing: on every path of every emitting body of the file 
                "`now` parameter (no DeferredNow::new, no direct clock read); R20.3 one DeferredNow per log call, handed to every output; inside "
                "DeferredNow the clock is read only by now(), through Option::get_or_insert_with, and every other accessor goes through now() (so the "
                "first reading is cached also in UTC mode); R20.4 each provided format function renders record.args() through Display exactly once "
-               "on every successful path and takes level/module/file/line from the record's accessors.")
+               "on every successful path and takes level/module/file/line from the record's accessors. R20.5 each output stream is rendered with its own configured format function (duplication table shared with R13.3).")
 ASSUMPTIONS = ["serde_json::to_string yields one valid single-line JSON object (serde_json)", "nu_ansi_term::paint only wraps the text", "chrono formatting"]
 NOT_DECIDED = ["byte-exact rendering", "JSON escaping", "ANSI wrapping"]
 FLOORS = {'R20.1': 4, 'R20.2': 9, 'R20.3': 4, 'R20.4': 9}
